@@ -579,6 +579,17 @@ joined = M.joined      # sep.join(list)
 
 def str_join(ex, recv: Any, arg: Any, st: State) -> List[Tuple[State, Any]]:
     sep = M.sval(ex.term(recv, st))
+    if ex.hint_of(arg, st) in ("set", "frozenset"):
+        # joining a set: the list of its members in the (hash-seed dependent) iteration order
+        sz = ex.term(arg, st)
+        lv = M.fresh("setlist")
+        jq = z3.Int("sj")
+        st.assume(M.is_Ref(lv), M.rcls(lv) == ex.ct.id("list"), M.llen(lv) == M.klen(sz),
+                  z3.ForAll([jq], z3.Implies(z3.And(0 <= jq, jq < M.klen(sz)), M.lat(lv, jq) == M.setord(ex.hashseed, sz, jq)),
+                            patterns=[M.lat(lv, jq)]))
+        ex.used_assumptions.add("iteration order of a set is an uninterpreted permutation depending on the "
+                                "interpreter's hash seed (setord)")
+        arg = T(lv, "list")
     lst = ex.seq_snap(arg, st)
     r = joined(sep, lst)
     n = M.llen(lst)
